@@ -106,7 +106,11 @@ class StmtMixin:
 
     def s_Assert(self, s, st):
         c = truth(self.eval(s.test, st))
-        self.oblige(st, "assert", s, c, "assert statement")
+        saved, self.spec = self.spec, False  # asserts in ghost code are real obligations
+        try:
+            self.oblige(st, "assert", s, c, "assert: " + ast.unparse(s.test)[:120])
+        finally:
+            self.spec = saved
         return [("normal", st, None)]
 
     def s_Return(self, s, st):
